@@ -205,7 +205,9 @@ def rapply_orders(rf, dimfuncs):
             raise OutOfDomain('zero-length dimension')
     outs = []
     seen = set()
-    for perm in itertools.permutations(list(dimfuncs)):
+    repeated = any(v.dims.count(d) > 1 for v in rf.vars.values() for d in dimfuncs)
+    for perm, rev in [(p_, r_) for p_ in itertools.permutations(list(dimfuncs))
+                      for r_ in ((False, True) if repeated else (False,))]:
         out = RFile()
         out.cls = rf.cls
         out.attrs = OrderedDict(rf.attrs)
@@ -214,8 +216,9 @@ def rapply_orders(rf, dimfuncs):
         for k, v in rf.vars.items():
             data, mask = v.data, v.mask
             for d in perm:
-                if d in v.dims:
-                    ax = v.dims.index(d)
+                # (a dimension may sit on more than one axis of a variable: the function goes along each)
+                axes = [a_ for a_, vd in enumerate(v.dims) if vd == d]
+                for ax in (axes[::-1] if rev else axes):       # (either axis order is accepted)
                     data, mask = apply1(data, mask, ax, dimfuncs[d], v.masked)
             out.vars[k] = RVar(v.dims, data, mask, v.attrs, v.fill, v.masked)
         for d, (n, u) in rf.dims.items():
